@@ -22,6 +22,8 @@ def build_batch(programs, cmd="lang", tables=(), langs="python", ext=".py", time
             h.update(mod.encode() + b"\0" + msrc.encode())
             files[f"{p['name']}/{mod.replace('.', '/')}{ext}"] = msrc
         p["hash"] = h.hexdigest()[:10]
+        if p["file"] in files and files[p["file"]] != text:
+            raise ValueError(f"two different programs of one batch are named {p['file']}")
         files[p["file"]] = text
     run = tengine.run_lian(files, cmd=cmd, langs=langs, timeout=timeout, settings_files=settings_files)
     info = dict(rc=run.rc, wall_s=round(run.wall, 1), log_tail=run.log[-1500:], cmd=cmd)
